@@ -123,7 +123,7 @@ def h_partition(env, which, part, idx_hi=2 ** 31):
 
 
 # ----------------------------------------------------------------------------------------------- whole function per thread-count class
-def h_jobs(env, rows, cols):
+def h_jobs(env, rows, cols, kernel="permanent"):
     """permanent_cpp<double> on a generic matrix for every value hardware_concurrency() may return (0..1024): the solver
     enumerates the classes (4*hc below the number of Gray-code indices: one path per value; at or above: one path) and the
     result equals the definition on each, i.e. it does not depend on the thread count / work partition."""
@@ -133,6 +133,20 @@ def h_jobs(env, rows, cols):
     env.functions += cc.fn_refs(prog, "permanent_cpp<double>, n_aryGrayCodeCounter, binomialCoeff (clang-14 AST)")
     env.stubs += ["Matrix/Vector handles of src/matrix.hpp, std::vector, std::complex arithmetic, ldexp, uninitialized_copy_n = native models",
                   "std::thread::hardware_concurrency() = symbolic integer 0..1024"]
+    if kernel == "laplace":
+        want = [cc.permanent_definition(A, rows, [c - (1 if j == i else 0) for j, c in enumerate(cols)]) if cols[i] > 0 else 0 for i in range(d)]
+        if env.mode == "sym":
+            hc = si.SI(env.ivar("n_threads", 0, 1024), 32)
+            got, ub = cc.interp_laplace(env, A, rows, cols, hc, cc.program("laplace"))
+        else:
+            hc = env.ivar("n_threads", 0, 1024)
+            got, ub = cc.native_permanent(A, rows, cols, hc, "L")
+            got = got if got is not None else [float("nan")] * d
+        for i in range(d):
+            if cols[i] > 0:
+                env.equal("Laplace sub-permanent %d for this thread count == definition" % i, got[i], want[i])
+        env.holds("no undefined behaviour", not ub)
+        return
     want = cc.permanent_definition(A, rows, cols)
     if env.mode == "sym":
         hc = si.SI(env.ivar("n_threads", 0, 1024), 32)
@@ -277,6 +291,7 @@ def instances(tier):
     out = [("partition", {"which": w, "part": p}) for w in ("permanent", "laplace") for p in ("count", "split")]
     out += [("partition", {"which": w, "part": "split", "idx_hi": 14}) for w in ("permanent", "laplace")]     # same query with witnesses the native twin can replay
     out += [("jobs", {"rows": list(r), "cols": list(c)}) for r, c in (((1, 1), (1, 1)), ((2, 2), (3, 1)), ((2, 0, 1), (1, 1, 1)), ((3, 2), (4, 1)), ((2, 2, 1), (1, 3, 1)))]
+    out += [("jobs", {"rows": list(r), "cols": list(c), "kernel": "laplace"}) for r, c in (((2, 1), (2, 2)), ((2, 2), (3, 2)), ((2, 2, 1), (2, 3, 1)))]
     out += [("rng_source", {"sim": s, "shots": 2}) for s in ("pure", "mixed")]
     out += [("seed_identity", {})]
     if tier == "thorough":
@@ -289,7 +304,7 @@ EXPLANATION = (
     "PARTIAL. (1) The integer statements of the native permanent kernels that turn hardware_concurrency() into a job count and split the Gray-code index range "
     "are executed from clang's AST of the current source on symbolic machine integers: for ALL range sizes up to 2^31, ALL thread counts 0..65536 and ANY job, z3 decides "
     "that there is at least one job, never more jobs than indices, job 0 starts at 0, consecutive jobs abut, the last job ends at idx_max-1, every job owns its initial index, "
-    "and no intermediate leaves its C++ type. (2) permanent_cpp<double> as a whole, interpreted on a generic complex matrix, equals the definition for every thread-count "
+    "and no intermediate leaves its C++ type. (2) permanent_cpp<double> and permanent_laplace_cpp<double> as a whole, interpreted on a generic complex matrix, equal the definition for every thread-count "
     "class the solver enumerates (including 0). (3) Non-interference of process-global random state: with generators as contract stubs, the solver searches for two runs "
     "with the same Config seed whose Fock particle-number samples differ. (4) Config seeds its generators with exactly the user's seed for every integer seed (symbolic)."
 )
